@@ -58,7 +58,9 @@ func rejectionClass(err error) string {
 }
 
 // formatLaws checks the formatter laws on one script; returns the fingerprint of the original pipeline (nil if rejected).
-func formatLaws(r *kit.Rec, c ScriptCase, cc *kit.Case) *Fingerprint {
+// fuzz: the input is arbitrary (native fuzzing): known defect classes cannot be avoided by construction and are
+// recognised on the formatter's output instead (counted as exclusions).
+func formatLaws(r *kit.Rec, c ScriptCase, cc *kit.Case, fuzz bool) *Fingerprint {
 	p, err := create(c.Script, c.Edge, c.Vars)
 	if err != nil {
 		cc.Label("rejected")
@@ -90,50 +92,82 @@ func formatLaws(r *kit.Rec, c ScriptCase, cc *kit.Case) *Fingerprint {
 		cc.Label("comment-adjacent-to-literal")
 	}
 
+	a0, err := ast.Parse(c.Script)
+	if err != nil {
+		fail(cc, "harness/parse", "CreatePipeline accepts but ast.Parse fails: %v", err)
+		return &fp
+	}
 	f1, err := tick.Format(c.Script)
 	if err != nil {
-		cc.Fail("format/error", "tick.Format fails on a script CreatePipeline accepts: %v\nscript:\n%s", err, c.Script)
+		fail(cc, "format/error", "tick.Format fails on a script CreatePipeline accepts: %v\nscript:\n%s", err, c.Script)
 		return &fp
+	}
+	class := formatDefectClass(a0, f1)
+	known := func() bool {
+		return fuzz && skip(r, c.Witness, knownFormatClass(class) != "", knownFormatClass(class))
 	}
 	p1, err := create(f1, c.Edge, c.Vars)
 	if err != nil {
-		cc.Fail("format/output-rejected"+formatClass(c, f1, err), "the formatted script is rejected: %v\nscript:\n%s\nformatted:\n%s", err, c.Script, f1)
+		if !known() {
+			fail(cc, "format/"+class+"/output-rejected", "the formatted script is rejected: %v\nscript:\n%s\nformatted:\n%s", err, c.Script, f1)
+		}
 		return &fp
 	}
 	fp1 := fingerprint(p1)
 	if fp1.Strict != fp.Strict {
-		cc.Fail("format/pipeline-changed"+formatClass(c, f1, nil), "formatting changed the pipeline; first difference %s\nscript:\n%s\nformatted:\n%s", firstDiff(fp.Strict, fp1.Strict), c.Script, f1)
+		if !known() {
+			fail(cc, "format/"+class+"/pipeline-changed", "formatting changed the pipeline; first difference %s\nscript:\n%s\nformatted:\n%s", firstDiff(fp.Strict, fp1.Strict), c.Script, f1)
+		}
 		return &fp
 	}
 	// the programs denote the same statements (comments aside)
-	a0, e0 := ast.Parse(c.Script)
-	a1, e1 := ast.Parse(f1)
-	if e0 != nil || e1 != nil {
-		cc.Fail("harness/parse", "parse errors %v / %v", e0, e1)
+	a1, err := ast.Parse(f1)
+	if err != nil {
+		fail(cc, "harness/parse", "CreatePipeline accepts the formatted script but ast.Parse fails: %v", err)
 		return &fp
 	}
 	if pp(a0) != pp(a1) {
-		cc.Fail("format/program-changed", "formatting changed the program; first difference %s\nscript:\n%s\nformatted:\n%s", firstDiff(pp(a0), pp(a1)), c.Script, f1)
+		if !known() {
+			fail(cc, "format/"+class+"/program-changed", "formatting changed the program (not the pipeline); first difference %s\nscript:\n%s\nformatted:\n%s", firstDiff(pp(a0), pp(a1)), c.Script, f1)
+		}
 		return &fp
 	}
 	st := stability(f1, tick.Format)
 	if st.changed {
 		cc.Label("format:changed-by-second-pass")
 	}
-	if st.unstable && !skip(r, c.Witness, st.class == "/multiline-creep", "K6 format stability: line breaks after binary operators creep one nesting level per pass (reaches a fixpoint later, layout only)") {
-		cc.Fail("format/not-stable"+st.class, "format is not stable after one further pass (err=%v)\nscript:\n%s\npasses:\n%s", st.err, c.Script, strings.Join(st.trace, "\n----\n"))
+	if st.unstable && !skip(r, c.Witness, st.class == "/multiline-creep", classK6) {
+		if st.class == "" {
+			st.class = "/unclassified"
+			if len(st.trace) > 1 {
+				// a later pass may run into one of the output-level classes
+				if k := formatDefectClass(a0, st.trace[len(st.trace)-1]); k != "unclassified" {
+					class = k
+					if known() {
+						return &fp
+					}
+					st.class = "/" + k
+				}
+			}
+		}
+		fail(cc, "format/not-stable"+st.class, "format is not stable after one further pass (err=%v)\nscript:\n%s\npasses:\n%s", st.err, c.Script, strings.Join(st.trace, "\n----\n"))
 		return &fp
 	}
 	if st.changed && len(st.trace) > 1 {
 		// whatever later passes changed must not matter either
 		last := st.trace[len(st.trace)-1]
+		class = formatDefectClass(a0, last)
 		p2, err := create(last, c.Edge, c.Vars)
 		if err != nil {
-			cc.Fail("format/later-pass-rejected", "output of a later formatting pass is rejected: %v\npass1:\n%s\nlast pass:\n%s", err, f1, last)
+			if !known() {
+				fail(cc, "format/"+class+"/later-pass-rejected", "output of a later formatting pass is rejected: %v\npass1:\n%s\nlast pass:\n%s", err, f1, last)
+			}
 			return &fp
 		}
 		if fp2 := fingerprint(p2); fp2.Strict != fp.Strict {
-			cc.Fail("format/later-pass-pipeline-changed", "a later formatting pass changed the pipeline; %s\npass1:\n%s\nlast pass:\n%s", firstDiff(fp.Strict, fp2.Strict), f1, last)
+			if !known() {
+				fail(cc, "format/"+class+"/later-pass-pipeline-changed", "a later formatting pass changed the pipeline; %s\npass1:\n%s\nlast pass:\n%s", firstDiff(fp.Strict, fp2.Strict), f1, last)
+			}
 		}
 	}
 	return &fp
@@ -204,13 +238,8 @@ func stability(f1 string, format func(string) (string, error)) stab {
 	return st
 }
 
-// formatClass refines the failure signature with the defect class (so that distinct defects get distinct signatures).
-func formatClass(c ScriptCase, formatted string, err error) string {
-	return ""
-}
-
 func runScriptWith(r *kit.Rec) func(c ScriptCase, cc *kit.Case) {
-	return func(c ScriptCase, cc *kit.Case) { formatLaws(r, c, cc) }
+	return func(c ScriptCase, cc *kit.Case) { formatLaws(r, c, cc, false) }
 }
 
 func TestScript(t *testing.T) {
@@ -294,7 +323,7 @@ func runPipeline(r *kit.Rec, c ScriptCase, cc *kit.Case) {
 func pipelineJSONLaw(r *kit.Rec, c ScriptCase, p *pipeline.Pipeline, fp Fingerprint, cc *kit.Case) {
 	w := c.Witness
 	if fp.Mutated != "" {
-		cc.Fail("pipeline-json/marshal-mutates-pipeline", "json.Marshal(pipeline) changed the pipeline it was given; %s\nscript:\n%s", fp.Mutated, c.Script)
+		fail(cc, "pipeline-json/marshal-mutates-pipeline", "json.Marshal(pipeline) changed the pipeline it was given; %s\nscript:\n%s", fp.Mutated, c.Script)
 		return
 	}
 	if skip(r, w, anyNode(p, func(n pipeline.Node) bool {
@@ -304,17 +333,17 @@ func pipelineJSONLaw(r *kit.Rec, c ScriptCase, p *pipeline.Pipeline, fp Fingerpr
 	}
 	b, err := json.Marshal(p)
 	if err != nil {
-		cc.Fail("pipeline-json/marshal-error", "json.Marshal(pipeline): %v\nscript:\n%s", err, c.Script)
+		fail(cc, "pipeline-json/marshal-error", "json.Marshal(pipeline): %v\nscript:\n%s", err, c.Script)
 		return
 	}
 	q := &pipeline.Pipeline{}
 	if err := unmarshalPipeline(q, b); err != nil {
-		cc.Fail("pipeline-json/unmarshal-error", "Pipeline.Unmarshal of its own JSON: %v\nscript:\n%s\njson: %s", err, c.Script, clip(string(b), 3000))
+		fail(cc, "pipeline-json/unmarshal-error/"+pipelineJSONErrorClass(err.Error()), "Pipeline.Unmarshal of its own JSON: %v\nscript:\n%s\njson: %s", err, c.Script, clip(string(b), 3000))
 		return
 	}
 	fq := fingerprint(q)
 	if fq.Canon != fp.Canon {
-		cc.Fail("pipeline-json/changed", "pipeline JSON round trip changed the pipeline; %s\nscript:\n%s", canonDiff(fp.Canon, fq.Canon), c.Script)
+		fail(cc, "pipeline-json/changed/"+pipelineChangeClass(fp.Canon, fq.Canon), "pipeline JSON round trip changed the pipeline; %s\nscript:\n%s", canonDiff(fp.Canon, fq.Canon), c.Script)
 	}
 	cc.Label("json-roundtrip-checked")
 }
@@ -345,17 +374,17 @@ func pipelineTickLaw(r *kit.Rec, c ScriptCase, s2 string, err error, fp Fingerpr
 	w := c.Witness
 	_ = w
 	if err != nil {
-		cc.Fail("pipeline-tick/build-error", "pipeline/tick AST.Build: %v\nscript:\n%s", err, c.Script)
+		fail(cc, "pipeline-tick/build-error/"+pipelineTickRejectClass(err.Error()), "pipeline/tick AST.Build: %v\nscript:\n%s", err, c.Script)
 		return
 	}
 	p2, err := create(s2, c.Edge, nil)
 	if err != nil {
-		cc.Fail("pipeline-tick/output-rejected", "the script rendered from the pipeline is rejected: %v\nscript:\n%s\nrendered:\n%s", err, c.Script, s2)
+		fail(cc, "pipeline-tick/output-rejected/"+pipelineTickRejectClass(err.Error()), "the script rendered from the pipeline is rejected: %v\nscript:\n%s\nrendered:\n%s", err, c.Script, s2)
 		return
 	}
 	f2 := fingerprint(p2)
 	if f2.Canon != fp.Canon {
-		cc.Fail("pipeline-tick/changed", "pipeline -> TICKscript -> pipeline changed the pipeline; %s\nscript:\n%s\nrendered:\n%s", canonDiff(fp.Canon, f2.Canon), c.Script, s2)
+		fail(cc, "pipeline-tick/changed/"+pipelineChangeClass(fp.Canon, f2.Canon), "pipeline -> TICKscript -> pipeline changed the pipeline; %s\nscript:\n%s\nrendered:\n%s", canonDiff(fp.Canon, f2.Canon), c.Script, s2)
 	}
 	cc.Label("tick-roundtrip-checked")
 }
@@ -382,7 +411,7 @@ type LambdaCase struct {
 
 // skip reports whether a law must be skipped for a known defect class (counted); witnesses skip nothing.
 func skip(r *kit.Rec, witness bool, cond bool, class string) bool {
-	if !cond || witness {
+	if !cond || witness || off(class) {
 		return false
 	}
 	r.Exclude(class)
@@ -407,12 +436,17 @@ var assumptionsLambda = []string{
 	"directly built ASTs leave the formatter-only fields (Parens, Literal, TripleQuotes, MultiLine) unset, as the JSON decoder and tick.resolveIdents/ValueToLiteralNode do",
 }
 
-func genLambda(t *rapid.T) LambdaCase {
+func genLambdaWith(r *kit.Rec) func(t *rapid.T) LambdaCase {
+	return func(t *rapid.T) LambdaCase { return genLambda(r, t) }
+}
+
+func genLambda(r *kit.Rec, t *rapid.T) LambdaCase {
 	g := &eg{t: t, idents: true}
 	d := rapid.IntRange(0, 5).Draw(t, "depth")
 	e := g.any(d)
 	noise := rapid.SampledFrom([]int{0, 1, 2}).Draw(t, "noise")
 	o := newOut(t, noise, rapid.Bool().Draw(t, "comments"))
+	o.exclude = r.Exclude
 	o.expr(e)
 	c := LambdaCase{E: e, Text: o.finish()}
 	for l := range o.labels {
@@ -478,11 +512,11 @@ func lambdaLaws(r *kit.Rec, name string, c LambdaCase, l *ast.LambdaNode, cc *ki
 		!skip(r, c.Witness, exprHas(c.E, isBigInt), classK4) {
 		l2, b, err := jsonRoundTrip(l)
 		if err != nil {
-			cc.Fail("lambda-json/error", "[%s] JSON round trip of lambda %s fails: %v\njson: %s", name, want, err, clip(string(b), 2000))
+			fail(cc, "lambda-json/error", "[%s] JSON round trip of lambda %s fails: %v\njson: %s", name, want, err, clip(string(b), 2000))
 			return
 		}
 		if got := pp(l2); got != want || !l2.Equal(l) || !l.Equal(l2) {
-			cc.Fail("lambda-json/changed"+jsonClass(want, got), "[%s] JSON round trip changed the lambda:\n  before %s\n  after  %s\n  Equal=%v\njson: %s", name, want, got, l2.Equal(l), clip(string(b), 2000))
+			fail(cc, "lambda-json/changed"+jsonClass(want, got), "[%s] JSON round trip changed the lambda:\n  before %s\n  after  %s\n  Equal=%v\njson: %s", name, want, got, l2.Equal(l), clip(string(b), 2000))
 			return
 		}
 		variants = append(variants, struct {
@@ -508,11 +542,11 @@ func lambdaLaws(r *kit.Rec, name string, c LambdaCase, l *ast.LambdaNode, cc *ki
 		f := ast.Format(v.l)
 		rp, err := reparseLambda(f)
 		if err != nil {
-			cc.Fail("lambda-format/unparseable"+unparseableClass(err), "[%s%s] formatted lambda does not parse: %v\n  lambda    %s\n  formatted %q", name, v.tag, err, want, f)
+			fail(cc, "lambda-format/unparseable"+unparseableClass(err), "[%s%s] formatted lambda does not parse: %v\n  lambda    %s\n  formatted %q", name, v.tag, err, want, f)
 			return
 		}
 		if got := pp(rp); got != want || !rp.Equal(l) {
-			cc.Fail("lambda-format/changed"+formatChangeClass(want, got), "[%s%s] Format changed the lambda:\n  before    %s\n  after     %s\n  formatted %q", name, v.tag, want, got, f)
+			fail(cc, "lambda-format/changed"+formatChangeClass(want, got), "[%s%s] Format changed the lambda:\n  before    %s\n  after     %s\n  formatted %q", name, v.tag, want, got, f)
 			return
 		}
 		st := stability(f, func(x string) (string, error) {
@@ -525,19 +559,19 @@ func lambdaLaws(r *kit.Rec, name string, c LambdaCase, l *ast.LambdaNode, cc *ki
 		if st.changed {
 			cc.Label("format:changed-by-second-pass")
 		}
-		if st.unstable && !skip(r, c.Witness, st.class == "/multiline-creep", "K6 format stability: line breaks after binary operators creep one nesting level per pass (reaches a fixpoint later, layout only)") {
-			cc.Fail("lambda-format/not-stable"+st.class, "[%s%s] format of a lambda not stable after one further pass (err %v):\n%s", name, v.tag, st.err, strings.Join(st.trace, "\n----\n"))
+		if st.unstable && !skip(r, c.Witness, st.class == "/multiline-creep", classK6) {
+			fail(cc, "lambda-format/not-stable"+st.class, "[%s%s] format of a lambda not stable after one further pass (err %v):\n%s", name, v.tag, st.err, strings.Join(st.trace, "\n----\n"))
 			return
 		}
 		// ExpressionString is the other rendering entry point (used when a lambda is shown on its own)
 		es := v.l.ExpressionString()
 		r3, err := ast.ParseLambda(es)
 		if err != nil {
-			cc.Fail("lambda-format/expression-string-unparseable", "[%s%s] ExpressionString does not parse: %v\n  lambda %s\n  text   %q", name, v.tag, err, want, es)
+			fail(cc, "lambda-format/expression-string-unparseable", "[%s%s] ExpressionString does not parse: %v\n  lambda %s\n  text   %q", name, v.tag, err, want, es)
 			return
 		}
 		if got := pp(r3); got != want {
-			cc.Fail("lambda-format/expression-string-changed", "[%s%s] ExpressionString changed the lambda:\n  before %s\n  after  %s\n  text   %q", name, v.tag, want, got, es)
+			fail(cc, "lambda-format/expression-string-changed", "[%s%s] ExpressionString changed the lambda:\n  before %s\n  after  %s\n  text   %q", name, v.tag, want, got, es)
 			return
 		}
 	}
@@ -582,7 +616,7 @@ func runLambdaWith(r *kit.Rec) func(c LambdaCase, cc *kit.Case) {
 
 func runLambda(r *kit.Rec, c LambdaCase, cc *kit.Case) {
 	if !utf8.ValidString(c.Text) {
-		cc.Fail("harness/invalid-utf8", "generator produced invalid UTF-8")
+		fail(cc, "harness/invalid-utf8", "generator produced invalid UTF-8")
 		return
 	}
 	ops, levels := exprStats(c.E)
@@ -599,17 +633,17 @@ func runLambda(r *kit.Rec, c LambdaCase, cc *kit.Case) {
 	}
 	wantNode, err := build(c.E, buildOpts{parens: true, literals: true})
 	if err != nil {
-		cc.Fail("harness/build", "cannot build expression: %v", err)
+		fail(cc, "harness/build", "cannot build expression: %v", err)
 		return
 	}
 	want := pp(wantNode)
 	parsed, err := ast.ParseLambda(c.Text)
 	if err != nil {
-		cc.Fail("harness/lambda-text-rejected", "ParseLambda rejects generated text %q (tree %s): %v", c.Text, exprString(c.E), err)
+		fail(cc, "harness/lambda-text-rejected", "ParseLambda rejects generated text %q (tree %s): %v", c.Text, exprString(c.E), err)
 		return
 	}
 	if got := pp(parsed.Expression); got != want {
-		cc.Fail("lambda/parse-structure", "parser structure differs from the precedence table:\n  text %q\n  want %s\n  got  %s", c.Text, want, got)
+		fail(cc, "lambda/parse-structure", "parser structure differs from the precedence table:\n  text %q\n  want %s\n  got  %s", c.Text, want, got)
 		return
 	}
 	lambdaLaws(r, "parsed", c, parsed, cc)
@@ -626,7 +660,7 @@ func runLambda(r *kit.Rec, c LambdaCase, cc *kit.Case) {
 
 func TestLambda(t *testing.T) {
 	r := kit.NewRec("C13", "Lambda", ruleLambda, assumptionsLambda...)
-	kit.Check(t, r, genLambda, runLambdaWith(r))
+	kit.Check(t, r, genLambdaWith(r), runLambdaWith(r))
 }
 
 func TestReplayLambda(t *testing.T) {
